@@ -696,6 +696,10 @@ func (t *Teamserver) EventBroadcast(ExceptClient string, pk packager.Package) {
 
 	t.Clients.Range(func(key, value any) bool {
 		ClientID := key.(string)
+		// never hand events to a connection that has not authenticated yet
+		if client, ok := value.(*Client); !ok || !client.Authenticated {
+			return true
+		}
 		if ExceptClient != ClientID {
 			err := t.SendEvent(ClientID, pk)
 			if err != nil && !strings.Contains(err.Error(), "use of closed network connection") {
